@@ -12,6 +12,20 @@ use core::mem::MaybeUninit;
 pub const MAPCAP: usize = 3;
 #[derive(Default, Clone, Copy, Debug)]
 pub struct DefaultHashBuilder;
+/// never used for anything (lookups compare keys); present so that bounds `S: BuildHasher` hold
+pub struct NoHasher;
+impl core::hash::Hasher for NoHasher {
+    fn finish(&self) -> u64 {
+        0
+    }
+    fn write(&mut self, _b: &[u8]) {}
+}
+impl BuildHasher for DefaultHashBuilder {
+    type Hasher = NoHasher;
+    fn build_hasher(&self) -> NoHasher {
+        NoHasher
+    }
+}
 pub struct HashMap<K, V, S = DefaultHashBuilder> {
     used: [bool; MAPCAP],
     keys: [MaybeUninit<K>; MAPCAP],
@@ -105,6 +119,24 @@ impl<K: Eq + Hash, V, S> HashMap<K, V, S> {
             None => None,
         }
     }
+    /// Keep the entries for which `f` returns true (visited in slot order).
+    pub fn retain<F: FnMut(&K, &mut V) -> bool>(&mut self, mut f: F) {
+        let mut i = 0;
+        while i < MAPCAP {
+            if self.used[i] {
+                let keep = unsafe { f(self.keys[i].assume_init_ref(), self.vals[i].assume_init_mut()) };
+                if !keep {
+                    self.used[i] = false;
+                    self.len -= 1;
+                    unsafe {
+                        self.keys[i].assume_init_drop();
+                        self.vals[i].assume_init_drop();
+                    }
+                }
+            }
+            i += 1;
+        }
+    }
     pub fn values(&self) -> Values<'_, K, V, S> {
         Values { m: self, i: 0 }
     }
@@ -116,6 +148,11 @@ impl<K: Eq + Hash, V, S> HashMap<K, V, S> {
         while let Some(kv) = d.next() {
             drop(kv);
         }
+    }
+}
+impl<K: Eq + Hash, V> HashMap<K, V, DefaultHashBuilder> {
+    pub fn new() -> Self {
+        Self::with_hasher(DefaultHashBuilder)
     }
 }
 pub struct Values<'a, K, V, S> {
